@@ -91,10 +91,65 @@ theorem all_sites_covered : ∀ s ∈ Aergo.Gen.NondetSites.sites, ∃ c, (s, c)
   obtain ⟨e, he, rfl⟩ := List.mem_map.1 this
   exact ⟨e.2, he⟩
 
+/-! #### the loop bodies, the scan list -/
+
+-- Diagnostic only (the obligation is `all_loops_match`): name the loops whose body changed.
+#eval show IO Unit from do
+  let d := Aergo.Nondet.loopDiffs Aergo.Gen.NondetSites.loops
+  unless d.isEmpty do
+    throw (IO.userError s!"map iteration(s) whose body no longer is what was classified: {d}")
+  unless Aergo.Nondet.loopsMatch Aergo.Gen.NondetSites.loops Aergo.Nondet.loopTable do
+    throw (IO.userError "Aergo.Nondet.loopTable has rows for loops that no longer exist, or is not in ascending key order")
+  let missing := Aergo.Gen.NondetSites.closure.filter (fun p => !Aergo.Gen.NondetSites.scannedDirs.contains p)
+  unless missing.isEmpty do
+    throw (IO.userError s!"package(s) imported by the block-execution roots but not in the scan list of tools/props.d/C02.json: {missing}")
+
+private theorem loopsMatch_sound : ∀ (gen : List (String × String × List String × List String × String))
+    (rows : List Aergo.Nondet.LoopRow), Aergo.Nondet.loopsMatch gen rows = true →
+    ∀ g ∈ gen, ∃ r ∈ rows, Aergo.Nondet.rowMatches g r = true
+  | [], _, _, g, hg => by cases hg
+  | _ :: _, [], h, _, _ => by simp [Aergo.Nondet.loopsMatch] at h
+  | a :: gs, r :: rs, h, g, hg => by
+    simp only [Aergo.Nondet.loopsMatch, Bool.and_eq_true] at h
+    rcases List.mem_cons.1 hg with rfl | hg
+    · exact ⟨r, List.mem_cons_self, h.1⟩
+    · obtain ⟨r', hr', hm⟩ := loopsMatch_sound gs rs h.2 g hg
+      exact ⟨r', List.mem_cons_of_mem _ hr', hm⟩
+
+set_option maxRecDepth 100000 in
+/-- **The classification is tied to the loop bodies.** For every map iteration of the *current* source (every
+`range` over a map or unresolved operand, every `.Range(f)`) the body summary the extractor computes — early exits,
+non-local write targets, callees — is the one recorded in `Aergo.Nondet.loopTable` when the site was classified,
+and for the bodies a model of `Aergo.Determ` transcribes also the fingerprint of the printed body. A loop that
+starts to call `PutState`, to append to an outer slice or to `break` no longer matches, whatever its class. -/
+theorem all_loops_match : ∀ g ∈ Aergo.Gen.NondetSites.loops, ∃ r ∈ Aergo.Nondet.loopTable,
+    Aergo.Nondet.rowMatches g r = true := by
+  have h : Aergo.Nondet.loopsMatch Aergo.Gen.NondetSites.loops Aergo.Nondet.loopTable = true := by decide +kernel
+  exact loopsMatch_sound _ _ h
+
+set_option maxRecDepth 100000 in
+/-- Every loop whose site is mapped to a theorem is pinned by the fingerprint of its body: the model the theorem
+is about was transcribed from exactly that body. -/
+theorem thm_loops_pinned : Aergo.Nondet.thmRowsPinned = true := by decide +kernel
+
+set_option maxRecDepth 100000 in
+/-- No loop classified `noState` calls a function of `Aergo.Nondet.stateWriters` (block state, receipts, state
+database writers, by name). -/
+theorem noState_loops_call_no_state_writer : Aergo.Nondet.noStateRowsClean = true := by decide +kernel
+
+set_option maxRecDepth 100000 in
+/-- **The scan list is closed under imports.** Every package of this module that `chain`, `consensus/chain` or
+`consensus/impl/dpos` transitively import (computed from the current source) is scanned completely. A package
+that block execution starts to use cannot stay outside the inventory. -/
+theorem closure_scanned : ∀ p ∈ Aergo.Gen.NondetSites.closure, p ∈ Aergo.Gen.NondetSites.scannedDirs := by
+  decide +kernel
+
 /-- Self-test of the extractor on a synthetic package with known answers (`corpus/C02/synth`, regenerated on
 every run like the real inventory): maps behind named types, fields, promoted fields, fields and functions
 of another package of the module, method results, locals, multi-value results are found; slices, strings,
-channels, integers are not listed; an unresolvable operand is listed as `range?`. A *test* of the tool. -/
+channels, integers are not listed; an unresolvable operand is listed as `range?`; `sort.*` calls, context
+polls (of a `context.Context`, or `ctxpoll?` on an unresolvable receiver, but not `Err()` of a type of the module),
+environment reads, `reflect` map walks and `%p` formats are listed. A *test* of the tool. -/
 theorem extractor_selftest : Aergo.Gen.NondetSynth.sites = [
     "a/a.go:clocks:go:clocks",
     "a/a.go:clocks:go:func() {}",
@@ -106,6 +161,19 @@ theorem extractor_selftest : Aergo.Gen.NondetSynth.sites = [
     "a/a.go:clocks:time:time.Now",
     "a/a.go:clocks:time:time.Now#1",
     "a/a.go:clocks:time:time.Since",
+    "a/a.go:holder.effects:ctxpoll:ctx.Deadline",
+    "a/a.go:holder.effects:ctxpoll:ctx.Err",
+    "a/a.go:holder.effects:ctxpoll?:unknown.Err",
+    "a/a.go:holder.effects:env:os.Getenv",
+    "a/a.go:holder.effects:env:runtime.NumCPU",
+    "a/a.go:holder.effects:mapkeys:reflect.ValueOf(h.m).MapKeys",
+    "a/a.go:holder.effects:maprange:h.m",
+    "a/a.go:holder.effects:maprange:h.m#1",
+    "a/a.go:holder.effects:maprange:h.m#2",
+    "a/a.go:holder.effects:ptrfmt:fmt.Sprintf",
+    "a/a.go:holder.effects:sort:sort.Slice",
+    "a/a.go:holder.effects:sort:sort.Strings",
+    "a/a.go:holder.effects:syncmap:h.sm.Range",
     "a/a.go:holder.ranges:maprange:b.Index()",
     "a/a.go:holder.ranges:maprange:b.Registry",
     "a/a.go:holder.ranges:maprange:fmap()",
@@ -123,6 +191,16 @@ theorem extractor_selftest : Aergo.Gen.NondetSynth.sites = [
     "a/a.go:holder.ranges:range?:unknown.Field",
     "a/a.go:holder.ranges:syncmap:h.sm.Range",
     "a/a.go:var initialised:maprange:pkgMap"] := by decide +kernel
+
+/-- Self-test of the loop-body summary: early exits (`return`, `break` but not the `break` of an inner `switch`,
+`continue outer`, `return false` of a `.Range` callback, not the `return` of a nested function literal), writes
+(non-local targets only, index expressions abstracted, `delete`), calls (logger chain left out). A *test*. -/
+theorem extractor_selftest_loops :
+    (Aergo.Gen.NondetSynth.loops.take 4).map (fun g => (g.1, g.2.1, g.2.2.1, g.2.2.2.1)) = [
+    ("a/a.go:holder.effects:maprange:h.m", "return", ["h.box.Items[_]", "out", "total"], [".Put", "append", "fmt.Errorf", "fmt.Sprint"]),
+    ("a/a.go:holder.effects:maprange:h.m#1", "break", ["delete(h.m)"], []),
+    ("a/a.go:holder.effects:maprange:h.m#2", "continue outer", [], ["func"]),
+    ("a/a.go:holder.effects:syncmap:h.sm.Range", "return false", ["total"], [])] := by decide +kernel
 
 /-! ### Vote list: `VoteList.Less` and `buildVoteList` -/
 
@@ -479,6 +557,7 @@ end exec
 so each of them is a declaration. -/
 def theoremIndex : List (String × Lean.Name) := [
   ("Aergo.Props.C02.buildVoteList_order_invariant", ``buildVoteList_order_invariant),
+  ("Aergo.Props.C02.voteList_order_unique", ``voteList_order_unique),
   ("Aergo.Props.C02.vprApply_perm_invariant", ``vprApply_perm_invariant),
   ("Aergo.Props.C02.vprRowWrites_perm_invariant", ``vprRowWrites_perm_invariant),
   ("Aergo.Props.C02.export_perm_invariant", ``export_perm_invariant),
